@@ -39,13 +39,13 @@ Theorem handover_once : forall C sched, c_fix_add C = true ->
   (forall x, In x (g_enq s) -> places s x = 1) /\
   (forall x, ~ In x (g_enq s) -> places s x = 0) /\
   g_leaked s = [] /\
-  (returned s = true -> g_relclear s = reg s /\ queue s = g_late s).
+  (returned s = true -> c_bare C = false -> g_relclear s = reg s /\ queue s = g_late s).
 Proof. exact handover_once_all. Qed.
 Print Assumptions handover_once.
 
 Theorem handover_each_released_exactly_once_at_return : forall C sched, c_fix_add C = true ->
   let s := exec sys (step C) init sched in
-  returned s = true ->
+  returned s = true -> c_bare C = false ->
   forall x, In x (g_enq s) ->
   count_occ Nat.eq_dec (g_relfail s ++ g_relclear s ++ g_relexit s) x + count_occ Nat.eq_dec (g_late s) x = 1.
 Proof. exact handover_released_once. Qed.
@@ -68,7 +68,7 @@ Theorem exit_returns : forall C sched, c_fix_exit C = true ->
   (to_exit s <> 0 -> ~ writer_in_flight s -> thr s (c_loop C) = APoll ->
    exists s', step C s (c_loop C) 0 = Some (s', ev_poll true) /\ thr s' (c_loop C) = SPollRet) /\
   (to_exit s <> 0 -> thr s (c_loop C) = SWakeEnd ->
-   exists s', step C s (c_loop C) 0 = Some (s', LPlain [(n_wake, 0%Z)]) /\
+   exists s', step C s (c_loop C) 0 = Some (s', LPlain (wake_notes C)) /\
               leaving (thr s' (c_loop C)) = true /\ to_exit s' = ST_EXIT) /\
   (thr s (c_loop C) <> SStart -> thr s (c_loop C) <> Done -> step C s (c_loop C) 0 = None ->
    exists u, u <> c_loop C /\ mtx s = Some u /\ step C s u 0 <> None).
@@ -80,6 +80,20 @@ Proof.
   - exact (loop_never_stuck C sched).
 Qed.
 Print Assumptions exit_returns.
+
+(* every theorem of this file quantifies over the configuration [C], which includes which optional
+   callbacks are installed (c_cb_wake, c_cb_add, c_cb_release, c_cb_read, c_cb_close, c_cb_clear,
+   c_cb_exit, c_cb_timer) and whether the loop is bare or has a socket handle attached (c_bare).
+   For a bare loop the exit test is reached in the plain segment that follows the clear-up: the
+   WAKE -> EXIT promotion happens whether or not a wake callback is installed, and the loop goes
+   through the clear callbacks and the exit callback (those that are installed) to the return *)
+Theorem exit_test_promotes_without_callbacks : forall C sched, c_fix_exit C = true -> c_bare C = true ->
+  let s := exec sys (step C) init sched in
+  to_exit s <> 0 -> thr s (c_loop C) = SWake ->
+  exists s', step C s (c_loop C) 0 = Some (s', LPlain (wake_notes C ++ bare_exit_notes C)) /\
+             thr s' (c_loop C) = AFin /\ returned s' = true /\ to_exit s' = ST_EXIT.
+Proof. exact exit_test_leaves_bare. Qed.
+Print Assumptions exit_test_promotes_without_callbacks.
 
 (* variant: with an exit pending and the loop thread past a poll return, every step of the loop
    thread keeps it on the way out and strictly decreases [rank]; a step of another thread leaves
@@ -131,7 +145,7 @@ Theorem exit_returns_fair : forall C pre rounds,
   to_exit s <> 0 -> Forall (fair_round C) rounds -> G C s < length rounds ->
   let s' := exec sys (step C) init (pre ++ concat rounds) in
   thr s' (c_loop C) = Done /\ returned s' = true /\
-  g_relclear s' = reg s' /\ exitdr s' = true /\ queue s' = g_late s'.
+  (c_bare C = false -> g_relclear s' = reg s' /\ exitdr s' = true /\ queue s' = g_late s').
 Proof. exact exit_returns_fair_all. Qed.
 Print Assumptions exit_returns_fair.
 
